@@ -50,7 +50,9 @@ class FaultyDevice(HardwareLayerBase):
         self.in_batch = False
         self.primary_done = False
 
-    def script(self, fail_reads=False, fail_writes_after=None, connect_ok=True, reset=False, pend_fail=False):
+    def script(self, fail_reads=False, fail_writes_after=None, connect_ok=True, reset=False, pend_fail=False,
+               disc_fail=False):
+        self.disc_fail = disc_fail
         self.fail_reads = fail_reads
         self.primary_failed = False
         self.pend_fail = pend_fail
@@ -121,6 +123,10 @@ class FaultyDevice(HardwareLayerBase):
 
     def disconnect(self):
         self.calls["disconnect"] += 1
+        if getattr(self, "disc_fail", False):
+            # closing a connection that is already broken raises in many drivers; reconnect() documents that it goes on
+            self.rec.log("dev.disconnect.fail")
+            raise HardwareLayerException("sim disconnect failure")
         super().disconnect()
 
 
@@ -159,7 +165,8 @@ class SimH(Simulator):
                     outage = rng.randint(1, 12)
                 f = outage > 0
                 outage = max(0, outage - 1)
-                ops.append({"op": "tick", "n": 1, "ok": int(not f or rng.random() < 0.3), "reset": int(rng.random() < 0.3)})
+                ops.append({"op": "tick", "n": 1, "ok": int(not f or rng.random() < 0.3), "reset": int(rng.random() < 0.3),
+                            "disc_fail": int(faulty and rng.random() < 0.2)})
                 ops.append({"op": "read_batch", "regs": READ_REGS, "fail": int(f and rng.random() < 0.8)})
                 ops.append(self._gen_cycle(rng, f and rng.random() < 0.8))
                 r = rng.random()
@@ -167,7 +174,7 @@ class SimH(Simulator):
                     ops.append({"op": "advance", "dt": rng.choice(ADVANCES)})
                 elif r < 0.25:
                     ops.append({"op": "tick", "n": rng.choice([5, 6, 15, 21, 80]), "ok": int(rng.random() < 0.7),
-                                "reset": int(rng.random() < 0.3)})
+                                "reset": int(rng.random() < 0.3), "disc_fail": int(faulty and rng.random() < 0.25)})
                 else:
                     ops.append({"op": "advance", "dt": 0.1})
                 if rng.random() < 0.15:
@@ -190,7 +197,8 @@ class SimH(Simulator):
                 ops.append(self._gen_cycle(rng, f))
             elif k < 0.80:
                 ops.append({"op": "tick", "n": rng.choice([1, 1, 2, 5, 6, 7, 15, 21, 25, 81]),
-                            "ok": int(rng.random() < (0.6 if faulty else 1.0)), "reset": int(rng.random() < 0.3)})
+                            "ok": int(rng.random() < (0.6 if faulty else 1.0)), "reset": int(rng.random() < 0.3),
+                            "disc_fail": int(faulty and rng.random() < 0.25)})
             elif k < 0.97:
                 ops.append({"op": "advance", "dt": rng.choice(ADVANCES)})
             else:
@@ -228,6 +236,8 @@ class SimH(Simulator):
                 yield dict(plan, ops=ops[:i] + [dict(op, reset=0)] + ops[i + 1:])
             if op.get("pend_fail"):
                 yield dict(plan, ops=ops[:i] + [dict(op, pend_fail=0)] + ops[i + 1:])
+            if op.get("disc_fail"):
+                yield dict(plan, ops=ops[:i] + [dict(op, disc_fail=0)] + ops[i + 1:])
             if op["op"] == "advance" and op["dt"] != 0.1:
                 yield dict(plan, ops=ops[:i] + [dict(op, dt=0.1)] + ops[i + 1:])
 
@@ -455,12 +465,15 @@ class SimH(Simulator):
             elif o == "tick":
                 for i in range(op["n"]):
                     pre_i = state()
-                    dev.script(connect_ok=bool(op["ok"]), reset=bool(op["reset"]))
+                    dev.script(connect_ok=bool(op["ok"]), reset=bool(op["reset"]), disc_fail=bool(op.get("disc_fail")))
                     try:
                         dec.tick()
                     except Exception as e:
                         vio("C23", "C23.unexpected_exception", "tick", step, repr(e))
-                    attempted = dev.calls["connect"] > 0
+                    # a reconnect attempt is a disconnect (whose failure is ignored, as reconnect() documents) and a connect
+                    attempted = dev.calls["connect"] > 0 or dev.calls["disconnect"] > 0
+                    if attempted and op.get("disc_fail"):
+                        res.fault("disconnect_raises_during_reconnect")
                     if pre_i in (S.Reconnect, S.Error):
                         ticks_since_enter += 1
                         if attempted:
